@@ -176,6 +176,58 @@ Proof.
   destruct t; [reflexivity|]. rewrite ends_ok_tail in He by discriminate. exact He.
 Qed.
 
+
+(** ---- the same loop for any element expression that eats one ordinary character and fails at a newline ---- *)
+Section GenLoop.
+Variable E : pexp.
+Variable okc' : char -> bool.
+Hypothesis HE_char : forall pos c r, okc' c = true -> is_blank c = false -> EV E AtNon pos (c :: r) (POk (S pos) r []).
+Hypothesis HE_stop : forall pos r, EV E AtNon pos (10 :: r) PFail.
+
+Lemma gen_tail : forall n t pos rest, (length t <= n)%nat -> forallb okc' t = true -> ends_ok t = true ->
+  EV (PRepTail E) AtNon pos (t ++ 10 :: rest) (POk (pos + length t) (10 :: rest) []).
+Proof.
+  induction n as [|n IH]; intros t pos rest Hl Hok He.
+  - destruct t; [|cbn in Hl; lia]. cbn [app length]. rewrite Nat.add_0_r.
+    eapply evals_reptail_stop; [apply skip_none; reflexivity | apply HE_stop].
+  - destruct t as [|c0 t0].
+    { cbn [app length]. rewrite Nat.add_0_r.
+      eapply evals_reptail_stop; [apply skip_none; reflexivity | apply HE_stop]. }
+    destruct (span_bl (c0 :: t0)) as [a b] eqn:Es.
+    destruct (span_bl_spec _ _ _ Es) as [Et [Ha Hb]].
+    destruct b as [|c b].
+    { exfalso. rewrite app_nil_r in Et. rewrite Et in He. rewrite all_blank_ends in He; [discriminate| |exact Ha].
+      intro Z. rewrite Z in Et. discriminate. }
+    rewrite Et in *. cbn [starts_blank] in Hb.
+    rewrite forallb_app in Hok. apply andb_prop in Hok as [_ Hok]. cbn [forallb] in Hok. apply andb_prop in Hok as [Hc Hok].
+    rewrite <- app_assoc. cbn [app].
+    change (@nil tree) with ([] ++ [] ++ @nil tree)%list.
+    eapply evals_reptail_step.
+    + apply skip_blanks; [exact Ha | exact Hb].
+    + apply HE_char; assumption.
+    + lia.
+    + rewrite app_length in *. cbn [length] in *.
+      replace (pos + (length a + S (length b)))%nat with (S (pos + length a) + length b)%nat by lia.
+      apply IH; [lia | exact Hok |].
+      destruct b as [|c1 b1]; [reflexivity|].
+      rewrite ends_ok_app_blank in He by (assumption || discriminate).
+      rewrite ends_ok_tail in He by discriminate. exact He.
+Qed.
+
+
+Lemma gen_chars c t pos rest : okc' c = true -> is_blank c = false -> forallb okc' t = true -> ends_ok (c :: t) = true ->
+  EV (PRep E) AtNon pos ((c :: t) ++ 10 :: rest) (POk (pos + length (c :: t)) (10 :: rest) []).
+Proof.
+  intros Hc Hb Hok He. cbn [app length].
+  change (@nil tree) with ([] ++ @nil tree)%list.
+  eapply evals_rep_some; [apply HE_char; assumption|].
+  replace (pos + S (length t))%nat with (S pos + length t)%nat by lia.
+  apply (gen_tail (length t)); [lia | exact Hok |].
+  destruct t; [reflexivity|]. rewrite ends_ok_tail in He by discriminate. exact He.
+Qed.
+
+End GenLoop.
+
 (** ---- a command line ---- *)
 Definition kw_prefixes : list str := [s_if; s_for; s_elseif; s_else; s_fi; s_while; s_done].
 Definition strict_nokw (line : str) : bool := forallb (fun p => negb (has_prefix p line)) kw_prefixes.
